@@ -40,50 +40,10 @@ theorem floatClauses_trivial (f : Field) (v : Val) (span : List Char)
     simp [this]
   · rfl
 
-/-- **C01 in full, F-notation floats included.** For every layout and value list admitted by
-`Spec.C01.inDomain` whose non-missing floats are finite doubles below `2^1013` in F-notation
-fields of at most 323 decimals, the model's write / read / re-write cycle satisfies the whole
-of `Spec.C01.holds`: values read back are the canonical forms, the re-written text is
-identical, and every float is written in the configured dialect, within half a unit of its
-last emitted decimal, with the largest number of decimals that fits. -/
-theorem main_F_full (fs : List Field) (vs : List Val) (h : inDomain fs vs = true)
-    (hdate : ∀ fv ∈ fs.zip vs, ∀ fmts, fv.1.kind = .date fmts → fv.2.isNull = true → ∀ fm ∈ fmts, fm ≠ [])
-    (hbig : ∀ v ∈ vs, ∀ n, v = .int n → n.natAbs < 10 ^ 4300)
-    (hflt : ∀ fv ∈ fs.zip vs, FloatF fv.1 fv.2) :
-    ∃ o, cycle fs vs = some o ∧ holds fs vs o = true := by
-  obtain ⟨o, hc, hst, hrb⟩ := main_F fs vs h hdate hbig hflt
-  refine ⟨o, hc, ?_⟩
-  simp only [holds, Bool.and_eq_true, beq_iff_eq, List.all_eq_true]
-  refine ⟨⟨hst, hrb⟩, ?_⟩
-  -- the spans of the written line
-  have hdom0 := h
-  simp only [inDomain, Bool.and_eq_true, beq_iff_eq, List.all_eq_true] at hdom0
-  obtain ⟨⟨hlen, hdis⟩, hdom⟩ := hdom0
-  have hD := Disjoint_of_bool' fs hdis
-  have hfits : ∀ fv ∈ fs.zip vs, Spec.C02.fits fv.1 fv.2 = true := by
-    intro fv hfv
-    have := hdom fv hfv
-    simp only [fieldInDomain, Bool.and_eq_true] at this
-    exact this.1.1
-  obtain ⟨rs, hr⟩ := all2_rendersTo_of_fits fs vs hlen hfits
-  have hw : writePos fs vs = .ok o.written := by
-    unfold cycle at hc
-    cases hwp : writePos fs vs with
-    | error e => simp [hwp] at hc
-    | ok w =>
-      simp only [hwp] at hc
-      cases hw2 : writePos fs (readPos fs w) with
-      | error e => simp [hw2] at hc
-      | ok w2 =>
-        simp only [hw2, Option.some.injEq] at hc
-        rw [← hc]
-  have hsp := spans_written fs vs rs o.written hlen hD hr hw
-  have hmem := all2_zip_mem fs vs rs hlen hr hsp
-  intro fv hfv
-  obtain ⟨f, v⟩ := fv
-  obtain ⟨r, hrend, hslice⟩ := hmem (f, v) hfv
-  simp only [] at hrend hslice ⊢
-  rw [hslice]
+/-- the float clauses for one field of an admitted layout: nothing to show unless it holds a
+non-missing float -/
+theorem clauses_F (f : Field) (v : Val) (r : List Char) (hd : fieldInDomain f v = true)
+    (hflt : FloatF f v) (hrend : rendersTo f v r) : floatClauses f v r = true := by
   by_cases hnull : ∀ dec fmt sep, f.kind = .flt dec fmt sep → v.isNull = true
   · exact floatClauses_trivial f v r hnull
   · have : ∃ dec fmt sep, f.kind = .flt dec fmt sep ∧ v.isNull = false := by
@@ -95,11 +55,10 @@ theorem main_F_full (fs : List Field) (vs : List Val) (h : inDomain fs vs = true
       | true => rfl
       | false => exact absurd ⟨dec, fmt, sep, hk, hv⟩ hno
     obtain ⟨dec, fmt, sep, hk, hv⟩ := this
-    rcases hflt (f, v) hfv dec fmt sep hk with hn | ⟨hfmt, hdec, neg, m, e, hve, hwf⟩
-    · simp only [] at hn; rw [hn] at hv; exact absurd hv (by simp)
-    · simp only [] at hve
-      subst hve
-      have hd1 := hdom (f, .dbl (.fin neg m e)) hfv
+    rcases hflt dec fmt sep hk with hn | ⟨hfmt, hdec, neg, m, e, hve, hwf⟩
+    · rw [hn] at hv; exact absurd hv (by simp)
+    · subst hve
+      have hd1 := hd
       simp only [fieldInDomain, Bool.and_eq_true, decide_eq_true_eq, hk] at hd1
       obtain ⟨⟨hft, _⟩, hsep, _⟩ := hd1
       obtain ⟨c, rfl⟩ : ∃ c, sep = [c] := by
@@ -140,6 +99,64 @@ theorem main_F_full (fs : List Field) (vs : List Val) (h : inDomain fs vs = true
       rw [hrt, hteq]
       unfold rjust
       exact floatClauses_F f dec fmt c hk hfmt hsep neg m e hwf.2.1 d' hd' _ hno
+
+/-- the whole of `Spec.C01.holds` from read-back, stability and the float clauses of every
+field's rendering -/
+theorem holds_of_clauses (fs : List Field) (vs : List Val) (h : inDomain fs vs = true) (o : Obs)
+    (hc : cycle fs vs = some o) (hst : o.rewritten = o.written)
+    (hrb : o.readBack = (fs.zip vs).map (fun fv => canon fv.1 fv.2 (slice o.written fv.1.start fv.1.stop)))
+    (hcl : ∀ fv ∈ fs.zip vs, ∀ r, rendersTo fv.1 fv.2 r → floatClauses fv.1 fv.2 r = true) :
+    holds fs vs o = true := by
+  simp only [holds, Bool.and_eq_true, beq_iff_eq, List.all_eq_true]
+  refine ⟨⟨hst, hrb⟩, ?_⟩
+  -- the spans of the written line
+  have hdom0 := h
+  simp only [inDomain, Bool.and_eq_true, beq_iff_eq, List.all_eq_true] at hdom0
+  obtain ⟨⟨hlen, hdis⟩, hdom⟩ := hdom0
+  have hD := Disjoint_of_bool' fs hdis
+  have hfits : ∀ fv ∈ fs.zip vs, Spec.C02.fits fv.1 fv.2 = true := by
+    intro fv hfv
+    have := hdom fv hfv
+    simp only [fieldInDomain, Bool.and_eq_true] at this
+    exact this.1.1
+  obtain ⟨rs, hr⟩ := all2_rendersTo_of_fits fs vs hlen hfits
+  have hw : writePos fs vs = .ok o.written := by
+    unfold cycle at hc
+    cases hwp : writePos fs vs with
+    | error e => simp [hwp] at hc
+    | ok w =>
+      simp only [hwp] at hc
+      cases hw2 : writePos fs (readPos fs w) with
+      | error e => simp [hw2] at hc
+      | ok w2 =>
+        simp only [hw2, Option.some.injEq] at hc
+        rw [← hc]
+  have hsp := spans_written fs vs rs o.written hlen hD hr hw
+  have hmem := all2_zip_mem fs vs rs hlen hr hsp
+  intro fv hfv
+  obtain ⟨f, v⟩ := fv
+  obtain ⟨r, hrend, hslice⟩ := hmem (f, v) hfv
+  simp only [] at hrend hslice ⊢
+  rw [hslice]
+  exact hcl (f, v) hfv r hrend
+
+/-- **C01 in full, F-notation floats included.** For every layout and value list admitted by
+`Spec.C01.inDomain` whose non-missing floats are finite doubles below `2^1013` in F-notation
+fields of at most 323 decimals, the model's write / read / re-write cycle satisfies the whole
+of `Spec.C01.holds`: values read back are the canonical forms, the re-written text is
+identical, and every float is written in the configured dialect, within half a unit of its
+last emitted decimal, with the largest number of decimals that fits. -/
+theorem main_F_full (fs : List Field) (vs : List Val) (h : inDomain fs vs = true)
+    (hdate : ∀ fv ∈ fs.zip vs, ∀ fmts, fv.1.kind = .date fmts → fv.2.isNull = true → ∀ fm ∈ fmts, fm ≠ [])
+    (hbig : ∀ v ∈ vs, ∀ n, v = .int n → n.natAbs < 10 ^ 4300)
+    (hflt : ∀ fv ∈ fs.zip vs, FloatF fv.1 fv.2) :
+    ∃ o, cycle fs vs = some o ∧ holds fs vs o = true := by
+  obtain ⟨o, hc, hst, hrb⟩ := main_F fs vs h hdate hbig hflt
+  refine ⟨o, hc, holds_of_clauses fs vs h o hc hst hrb ?_⟩
+  intro fv hfv r hrend
+  have hdom0 := h
+  simp only [inDomain, Bool.and_eq_true, beq_iff_eq, List.all_eq_true] at hdom0
+  exact clauses_F fv.1 fv.2 r (hdom0.2 fv hfv) (hflt fv hfv) hrend
 
 /-- non-vacuity: an integer and the double 1.5 (decimal comma, two decimals) meet every premise
 of `main_F_full`, and the cycle is the expected one -/
